@@ -1126,10 +1126,15 @@ bool Process::Arguments::read(int& character, String& argument)
     for(const Option* opt = options; opt < optionsEnd; ++opt)
       if(opt->character == character)
       {
-        if(opt->flags & Process::argumentFlag && !(opt->flags & Process::optionalFlag))
+        if(opt->flags & Process::argumentFlag)
         {
           if(!*arg)
           {
+            if(opt->flags & Process::optionalFlag)
+            { // optional argument not attached
+              argument.clear();
+              return true;
+            }
             if(!nextChar())
             { // missing argument
               argument.clear();
